@@ -9,7 +9,7 @@
      args     comma separated hex list, or "." for no free argument
      compile  O<hex bytes> | E<hex>,<hex>,...   ("E." = empty error list)
      create   ok | fail:<hex os error>
-     write    all | short:<n> | fail:<hex os error>
+     write    all | fail:<n bytes written before the error>:<hex os error>
      lua      0|1                                 (lua found on PATH)
      child    <hex stdout>:<hex stderr>:<status>  (constant child)
      usage    <hex>
@@ -54,8 +54,9 @@ let () =
         let create = if cr = "ok" then CreateOk else CreateFails (unhex (after_colon cr)) in
         let write =
           if wr = "all" then WroteAll
-          else if String.length wr > 6 && String.sub wr 0 6 = "short:" then WroteShort (nat_of_int (int_of_string (after_colon wr)))
-          else WriteFails (unhex (after_colon wr)) in
+          else (match String.split_on_char ':' wr with
+                | ["fail"; n; e] -> WriteFails (nat_of_int (int_of_string n), unhex e)
+                | _ -> failwith "bad write") in
         let child = match String.split_on_char ':' ch with
           | [so; se; stt] -> { c_stdout = unhex so; c_stderr = unhex se; c_status = n_of_int (int_of_string stt) }
           | _ -> failwith "bad child" in
